@@ -23,4 +23,5 @@ pub mod verif_http {
 #[cfg(feature = "verif-hooks")]
 pub mod verif_codec {
     pub use super::archive::{RepositoryState, RrdpObjectMeta};
+    pub use super::archive::AccessError;
 }
